@@ -171,9 +171,9 @@ Proof.
   - change u with (fst (u, a)). apply in_map. exact I.
 Qed.
 
-Theorem sub_filter_necessary ind names eattr child parent :
-  gwf child -> gwf parent -> contained ind (nm_sub names) (em_sub eattr) parent child ->
-  sub_filter names eattr child parent = true.
+Theorem sub_filter_necessary ind nc ec names eattr child parent :
+  gwf child -> gwf parent -> contained ind (nm_subc nc names) (em_subc ec eattr) parent child ->
+  sub_filter nc ec names eattr child parent = true.
 Proof.
   intros WC WPa (f & He). unfold sub_filter.
   assert (Ln : n_nodes child <= n_nodes parent) by (eapply emb_n_nodes; eauto; apply gwf_nodup; auto).
@@ -181,7 +181,7 @@ Proof.
   replace (n_nodes parent <? n_nodes child) with false by (symmetry; apply Nat.ltb_ge; exact Ln).
   replace (n_edges parent <? n_edges child) with false by (symmetry; apply Nat.ltb_ge; exact Le).
   simpl.
-  assert (F1 : forallb (fun cn => existsb (fun pn => nm_sub names (snd pn) (snd cn)) (gnodes parent)) (gnodes child) = true).
+  assert (F1 : forallb (fun cn => existsb (fun pn => nm_subc nc names (snd pn) (snd cn)) (gnodes parent)) (gnodes child) = true).
   { apply forallb_forall. intros [u a] I. destruct (node_label child u a WC I) as (El & Iu).
     destruct He as (E1 & _). destruct (E1 u Iu) as (Ih & Hn). apply existsb_exists.
     exists (f u, nlabel parent (f u)). split; [apply node_entry; exact Ih|]. simpl. rewrite <- El. exact Hn. }
